@@ -45,6 +45,34 @@ def exec_order(c, tree_or_list):
     return [(k, t) for k, t, cd in sem.execs if not z3.is_false(z3.simplify(cd))]
 
 
+LATE_FILL_SRC = ("out = []\nfor i in range(4):\n    if i == 2:\n        out.append('two')\n        continue\n    out.append(i)\n"
+                 "def f(x):\n    if x:\n        out.append('early')\n        return 1\n    out.append('late')\n    return 2\n"
+                 "n = 0\nwhile True:\n    n += 1\n    if n > 2:\n        out.append('stop')\n        break\n    out.append(n)\nr = (out, f(1), f(0), n)\n")
+
+
+def _holds(tree, obj, seen=None):
+    """is `obj` (by identity) part of the emitted tree?"""
+    from olvc.sym import Fold, Seg
+    seen = seen if seen is not None else set()
+    if tree is obj:
+        return True
+    if id(tree) in seen or isinstance(tree, (str, int, float, bytes, type(None))):
+        return False
+    seen.add(id(tree))
+    if isinstance(tree, Opaque):
+        sem = tree.props.get("sem")
+        return any(_holds(x, obj, seen) for x in (sem[1:] if sem else ()))
+    if isinstance(tree, Seg):
+        return any(_holds(x, obj, seen) for x in tree.items)
+    if isinstance(tree, Fold):
+        return _holds(tree.init, obj, seen) or _holds(tree.step, obj, seen)
+    if isinstance(tree, (list, tuple)):
+        return any(_holds(x, obj, seen) for x in tree)
+    if isinstance(tree, ast.AST):
+        return any(_holds(getattr(tree, f, None), obj, seen) for f in tree._fields)
+    return False
+
+
 def g_wrappers(R, tier):
     ut = CL.utils()
     for fn_name in ("list_wrapper", "chain_call_wrapper"):
@@ -64,6 +92,12 @@ def g_wrappers(R, tier):
             if p.kind != "ok":
                 R.fail(f"{nm}/no-unexpected-raise/{sig}", repr(p.value))
                 continue
+            # the callers fill some of these nodes in AFTER wrapping (the list displays of
+            # break/continue/return receive their flag assignment later): the result must
+            # hold the given node objects themselves, not copies of their contents
+            held = [_holds(p.value["res"], n_) for n_ in p.value["nodes"][:2]]
+            R.check(f"{nm}/holds-the-given-nodes-by-reference/{sig}", all(held), f"first/second found by identity in the result: {held}",
+                    replay=dict(kind="src", src=LATE_FILL_SRC, expect="same-globals"))
             sym.set_ctx(p.ctx)
             try:
                 try:
